@@ -207,7 +207,7 @@ do_reg_i(int prio)
 	r->cookie = events_immediate_register(callback, r, prio);
 	r->live = (r->cookie != NULL);
 	if (!r->live)
-		vh_die("events_immediate_register failed");
+		viol("register:failed", "events_immediate_register failed (no allocation was refused)");
 	st_reg[K_IMM]++;
 }
 
@@ -242,8 +242,9 @@ do_reg_s(int k, int op)
 		r->live = 0;
 	} else {
 		if (rc != 0)
-			vh_die("events_network_register failed: %s", strerror(errno));
-		r->live = 1;
+			viol("register:failed", "events_network_register of a free (descriptor, direction) "
+			    "failed: %s", strerror(errno));
+		r->live = (rc == 0);
 	}
 	st_reg[K_SOCK]++;
 }
@@ -270,8 +271,8 @@ do_reg_t(uint64_t us, int tick)
 	else
 		r->cookie = events_timer_register(callback, r, &tv);
 	if (r->cookie == NULL)
-		vh_die("events_timer_register failed");
-	r->live = 1;
+		viol("register:failed", "events_timer_register failed (no allocation was refused)");
+	r->live = (r->cookie != NULL);
 	st_reg[K_TIMER]++;
 }
 
@@ -353,7 +354,7 @@ act(int a, struct reg * self)
 		if ((t = pick_live(K_TIMER)) != NULL) {
 			t->t0_ns = now_ns();
 			if (events_timer_reset(t->cookie))
-				vh_die("events_timer_reset failed");
+				viol("register:failed", "events_timer_reset of a live timer failed");
 			st_reset++;
 		}
 		break;
